@@ -801,3 +801,142 @@ Proof.
     exact (get_named_g (mid_cands m) names v _ _ Hnd Hlen Hsem Hcons Hprio Hties Howns). }
   split; [exact Hget|]. unfold get_num_dims. rewrite Hget, combine_length, Hlen, Nat.min_id. reflexivity.
 Qed.
+
+(** * With the mixing parameter, [mid_prio_ok] follows from [mid_names_consistent] *)
+(** (all routing prefixes have one component, as in a Bilateral model) *)
+Definition C17_midline_prio_ok_mixing_stmt : Prop :=
+  forall ml named, mid_set_ok ml = true -> ml_mixing ml <> None ->
+    mid_names_consistent ml (map fst (mid_items ml)) named = true ->
+    mid_prio_ok ml (map fst (mid_items ml)) named = true.
+
+Lemma desc_len_filter (f : path -> bool) l : desc_len l -> desc_len (filter f l).
+Proof.
+  induction l as [|a l IH]; cbn [filter desc_len]; [auto|]. intros [H1 H2]. destruct (f a); [|apply IH, H2].
+  cbn [desc_len]. split; [|apply IH, H2]. intros b Hb. apply filter_In in Hb. apply H1, Hb.
+Qed.
+Lemma spread_cands_desc1 p n s : desc_len (spread_cands [p] n s).
+Proof.
+  unfold spread_cands. cbn [app desc_len In length].
+  repeat split; intros b Hb; repeat (destruct Hb as [<-|Hb]; [cbn [length]; lia|]); destruct Hb.
+Qed.
+
+Theorem midline_prio_ok_mixing : C17_midline_prio_ok_mixing_stmt.
+Proof.
+  intros ml named Hok Hmix Hcons.
+  assert (Hok' : mid_names_ok ml = true) by (unfold mid_set_ok in Hok; rewrite !andb_true_iff in Hok; apply Hok).
+  assert (Heiok : u_names_ok (ml_ei ml) = true) by apply (m_ok_parts ml Hok').
+  pose proof (cons_g_spec (mid_cands ml) _ _ Hcons) as Hcs.
+  unfold mid_prio_ok. apply forallb_forall. intros k Hk. apply desc_len_lenb.
+  pose proof (mid_nform ml k Hok' Hk) as Hf. destruct Hf; try congruence.
+  - apply desc_len_filter, spread_cands_desc1.
+  - apply desc_len_filter, spread_cands_desc1.
+  - apply desc_len_filter, spread_cands_desc1.
+  - apply desc_len_filter, spread_cands_desc1.
+  - apply desc_len_filter. cbn [mid_cands desc_len]. split; [intros b []| exact I].
+  - rewrite (cands_lnl ml Hok n s H). apply desc_len_filter. cbn [desc_len In length].
+    repeat split; intros b Hb; repeat (destruct Hb as [<-|Hb]; [cbn [length]; lia|]); destruct Hb.
+  - (* a distribution parameter: only "t_k" and "k" can be declared *)
+    rewrite (cands_dist ml t k H).
+    assert (Hno : forall c, In c [["ext"; "ipsi"; t; k]; ["ipsi"; t; k]; ["ext"; t; k]; ["ext"; "ipsi"; k]; ["ipsi"; k]; ["ext"; k]] ->
+                    memp c named = false).
+    { intros c Hc. destruct (memp c named) eqn:E; [|reflexivity]. exfalso. apply memp_In in E.
+      pose proof (Hcs c [t; k] E Hk) as Hd. rewrite (cands_dist ml t k H) in Hd.
+      assert (Hcc : memp c (dist_cands t k) = true) by (apply memp_In; unfold dist_cands; cbn [In] in Hc |- *; tauto).
+      rewrite Hcc in Hd. pose proof (dcio_length _ _ Hd) as Hl. cbn [In] in Hc.
+      repeat (destruct Hc as [<-|Hc]; [first [ cbn [length] in Hl; lia
+                | apply dcio_same_length in Hd; [|reflexivity]; injection Hd as Hd;
+                  apply (TS_res ml Hok' t H); rewrite <- Hd; cbn; tauto ] |]).
+      destruct Hc. }
+    unfold dist_cands. cbn [filter].
+    rewrite (Hno ["ext"; "ipsi"; t; k]) by (cbn [In]; tauto). rewrite (Hno ["ipsi"; t; k]) by (cbn [In]; tauto).
+    rewrite (Hno ["ext"; t; k]) by (cbn [In]; tauto). rewrite (Hno ["ext"; "ipsi"; k]) by (cbn [In]; tauto).
+    rewrite (Hno ["ipsi"; k]) by (cbn [In]; tauto). rewrite (Hno ["ext"; k]) by (cbn [In]; tauto).
+    destruct (memp [t; k] named), (memp [k] named); cbn [desc_len In length]; repeat split;
+      intros b Hb; repeat (destruct Hb as [<-|Hb]; [cbn [length]; lia|]); destruct Hb.
+  - assert (Ec : mid_cands ml ["midext"; "prob"] = [["midext"; "prob"]]).
+    { unfold mid_cands. assert (E1 : mem "midext" (u_tstages (ml_ei ml)) = false).
+      { apply mem_false. intros Ht. apply (in_reserved_not_tstage (ml_ei ml) "midext" Heiok); [cbn; tauto | exact Ht]. }
+      rewrite E1. reflexivity. }
+    rewrite Ec. apply desc_len_filter. cbn [desc_len]. split; [intros b []| exact I].
+Qed.
+
+(** * The restrictions are needed: refutations with witnesses *)
+(** a declared name that MATCHES reported parameters which [set_params] does not reach
+    through it: without the mixing parameter, "contra_spread" is a sub-name of
+    "noext_contra_TtoII_spread" / "ext_contra_TtoII_spread", but [set_tumor_spread_params]
+    hands only "noext_contra_..." / "ext_contra_..." keywords to those sub-models;
+    [mid_names_consistent] fails and [get_named_params] does not read the value back *)
+Definition C17_midline_names_consistent_needed_refuted_stmt : Prop :=
+  exists (ml : midline) (named : list path) (qs : list Qc),
+    m_names_ok ml = true /\ mid_dist_kw_ok ml = true /\ NoDup named /\ length qs = length named /\
+    option_map (fun ns => (mid_names_consistent ml ns named, mid_prio_ok ml ns named, no_ties ns named, each_owns ns named))
+               (param_names (MMid ml)) = Some (false, true, true, true) /\
+    let r := set_named_params (mk_nstate (MMid ml) (Some named)) (vals qs) [] in
+    snd r = inr tt /\ out_res_items (get_named_params (fst r)) <> Some (out_items (combine named qs)).
+(** [mid_prio_ok] is needed (without the mixing parameter): "TtoII_spread" and
+    "noext_contra_spread" both address "noext_contra_TtoII_spread"; [set_params] gives priority
+    to the arc name, [get_named_params] attributes the parameter to the name with more "_" *)
+Definition C17_midline_prio_needed_refuted_stmt : Prop :=
+  exists (ml : midline) (named : list path) (qs : list Qc),
+    m_names_ok ml = true /\ mid_dist_kw_ok ml = true /\ NoDup named /\ length qs = length named /\
+    option_map (fun ns => (mid_names_consistent ml ns named, mid_prio_ok ml ns named, no_ties ns named, each_owns ns named))
+               (param_names (MMid ml)) = Some (true, false, true, true) /\
+    let r := set_named_params (mk_nstate (MMid ml) (Some named)) (vals qs) [] in
+    snd r = inr tt /\ out_res_items (get_named_params (fst r)) <> Some (out_items (combine named qs)).
+(** a declared name that sets a parameter it does NOT match: "ipsi_p" reaches the
+    distribution parameter "late_p" (distributions are read from ext.ipsi); the Midline
+    counterpart of [C17_side_global_leak_refuted_stmt] *)
+Definition C17_midline_side_keyword_leak_refuted_stmt : Prop :=
+  exists (ml : midline) (n k : path) (q : Qc),
+    m_names_ok ml = true /\ mid_dist_kw_ok ml = true /\ does_contain_in_order k n = false /\
+    option_map (fun ns => mid_names_consistent ml ns [n]) (param_names (MMid ml)) = Some false /\
+    let r := set_named_params (mk_nstate (MMid ml) (Some [n])) [V q] [] in
+    snd r = inr tt /\
+    option_map (fun l => option_map qout (kw_get k l)) (param_items (MMid ml)) = Some (Some (1, 3)%Z) /\
+    option_map (fun l => option_map qout (kw_get k l)) (param_items (ns_model (fst r))) = Some (Some (1, 4)%Z).
+
+Definition C17g_nomix : midline :=
+  new_midline (new_uni C17_g1 [("late", Param 0 [("p", qc 1 3)])] 3) false false false false false.
+Theorem midline_names_consistent_needed_refuted : C17_midline_names_consistent_needed_refuted_stmt.
+Proof.
+  exists C17g_nomix, [["contra"; "spread"]], [qc 1 4].
+  split; [vm_compute; reflexivity|]. split; [vm_compute; reflexivity|].
+  split; [repeat constructor; intros []|]. split; [reflexivity|]. split; [vm_compute; reflexivity|].
+  cbv zeta. split; [vm_compute; reflexivity|]. intros H. vm_compute in H. discriminate H.
+Qed.
+Theorem midline_prio_needed_refuted : C17_midline_prio_needed_refuted_stmt.
+Proof.
+  exists C17g_nomix, [["TtoII"; "spread"]; ["noext"; "contra"; "spread"]], [qc 1 4; qc 3 4].
+  split; [vm_compute; reflexivity|]. split; [vm_compute; reflexivity|].
+  split; [repeat constructor; [intros [H|[]]; discriminate H | intros []]|].
+  split; [reflexivity|]. split; [vm_compute; reflexivity|].
+  cbv zeta. split; [vm_compute; reflexivity|]. intros H. vm_compute in H. discriminate H.
+Qed.
+Theorem midline_side_keyword_leak_refuted : C17_midline_side_keyword_leak_refuted_stmt.
+Proof.
+  exists C17g_nomix, ["ipsi"; "p"], ["late"; "p"], (qc 1 4).
+  split; [vm_compute; reflexivity|]. split; [vm_compute; reflexivity|]. split; [vm_compute; reflexivity|].
+  split; [vm_compute; reflexivity|].
+  cbv zeta. split; [vm_compute; reflexivity|]. split; vm_compute; reflexivity.
+Qed.
+
+(** [mid_dist_kw_ok] is needed: a distribution keyword that is itself a routing word
+    ("late_ext"): the declared global name "ext" matches "late_ext" and is among
+    [mid_cands] of it, but [unflatten_and_split] takes the keyword "ext" for the (empty)
+    sub-dictionary of the child "ext": nothing is set *)
+Definition C17_midline_dist_kw_ok_needed_refuted_stmt : Prop :=
+  exists (ml : midline) (named : list path) (qs : list Qc),
+    m_names_ok ml = true /\ mid_dist_kw_ok ml = false /\ NoDup named /\ length qs = length named /\
+    option_map (fun ns => (mid_names_consistent ml ns named, mid_prio_ok ml ns named, no_ties ns named, each_owns ns named))
+               (param_names (MMid ml)) = Some (true, true, true, true) /\
+    let r := set_named_params (mk_nstate (MMid ml) (Some named)) (vals qs) [] in
+    snd r = inr tt /\ out_res_items (get_named_params (fst r)) <> Some (out_items (combine named qs)).
+Definition C17g_extkw : midline :=
+  new_midline (new_uni C17_g1 [("late", Param 0 [("ext", qc 1 3)])] 3) true false false false false.
+Theorem midline_dist_kw_ok_needed_refuted : C17_midline_dist_kw_ok_needed_refuted_stmt.
+Proof.
+  exists C17g_extkw, [["ext"]], [qc 1 4].
+  split; [vm_compute; reflexivity|]. split; [vm_compute; reflexivity|].
+  split; [repeat constructor; intros []|]. split; [reflexivity|]. split; [vm_compute; reflexivity|].
+  cbv zeta. split; [vm_compute; reflexivity|]. intros H. vm_compute in H. discriminate H.
+Qed.
